@@ -686,4 +686,129 @@ def scanUpdateDN : List Key → List Key → List Key
   | ks, [] => ks
   | k :: ks, r :: rows => if k ≠ 0 then k :: scanUpdateDN ks (r :: rows) else r :: scanUpdateDN ks rows
 
+/-! ## (ix) embedded structs: how schema/field.go `ParseField` (the `EMBEDDED` / anonymous branch, field.go:391-440) and
+    the field loop of schema/schema.go `ParseWithSpecialTableName` (schema.go:200-210) flatten a struct declaration into
+    `schema.Fields`, and which flattened field OWNS a column afterwards (registration loop, section vi).
+
+    A declaration is a first-child / next-sibling tree: `field` = a column-backed (or ignored) struct field, `embed` = a
+    struct-typed field that gorm embeds — `anon = true` for a Go anonymous (embedded) field, `false` for a named field
+    with the `embedded` tag; a pointer to a struct is embedded the same way.  `pfx` = its `embeddedPrefix` ("" = none). -/
+inductive EDecl where
+  | nil
+  | field (name : String) (col : Option String) (perm : Bool) (next : EDecl)
+  | embed (name : String) (anon : Bool) (pfx : String) (kids : EDecl) (next : EDecl)
+  deriving Repr, Inhabited
+
+/-- `schema.Fields` of the declaration: every leaf in declaration order with its `BindNames` (`path`), its column with
+    all enclosing `embeddedPrefix`es prepended outermost first (field.go:420-422 runs once per enclosing level), and
+    `depth = len(BindNames)` (field.go:407 prepends the embedding field's name for anonymous AND named embedding). -/
+def flattenE (path : List String) (pfx : String) : EDecl → List (List String × PField String)
+  | .nil => []
+  | .field n col perm next =>
+    (path ++ [n], { name := n, dbName := col.map (pfx ++ ·), depth := path.length + 1, perm := perm }) :: flattenE path pfx next
+  | .embed n _ p kids next => flattenE (path ++ [n]) (pfx ++ p) kids ++ flattenE path pfx next
+
+/-- forget / overwrite the anonymous-vs-named distinction -/
+def EDecl.setAnon (b : Bool) : EDecl → EDecl
+  | .nil => .nil
+  | .field n c p next => .field n c p (next.setAnon b)
+  | .embed n _ p kids next => .embed n b p (kids.setAnon b) (next.setAnon b)
+
+def nth? {β : Type} : List β → Nat → Option β
+  | [], _ => none
+  | x :: _, 0 => some x
+  | _ :: l, n + 1 => nth? l n
+
+/-- `schema.DBNames` with, for every column, the `BindNames` of `schema.FieldsByDBName[column]` -/
+def embedOwners (t : EDecl) : List (String × List String) :=
+  let flat := flattenE [] "" t
+  let st := parseReg (flat.map (·.2))
+  st.dbNames.filterMap (fun c => match assoc c st.byDB with
+    | some e => (nth? flat e.1).map (fun pf => (c, pf.1))
+    | none => none)
+
+/-! ## (x) Create and DATABASE-GENERATED values: which columns the INSERT lists, which columns it asks back with
+    RETURNING (callbacks/create.go `Create`, create.go:44-61 and `ConvertToCreateValues`, create.go:236-345) and what the
+    in-memory records hold afterwards.  Field values are integers, `0` = the zero value. -/
+
+/-- default class of a column-owning field.
+    * `none`  — no default
+    * `lit v` — `default:` tag that gorm can parse (`DefaultValueInterface != nil`): gorm substitutes it itself
+    * `db`    — `HasDefaultValue && DefaultValueInterface == nil`: a DB expression (`default:(abs(-7))`), an
+                `autoIncrement` tag, …; the field is in `Schema.FieldsWithDefaultDBValue` in declaration order
+    * `autoPk` — the prioritized integer primary key without `default:`/`autoIncrement` tag: appended to
+                `FieldsWithDefaultDBValue` LAST (schema.go:318-329) -/
+inductive DefKind | none | lit (v : Int) | db | autoPk
+  deriving DecidableEq, Repr, Inhabited
+
+def DefKind.isDB : DefKind → Bool
+  | .db | .autoPk => true
+  | _ => false
+
+structure CCol where
+  name : String
+  dk : DefKind
+  deriving Repr, Inhabited
+
+/-- `Schema.FieldsWithDefaultDBValue` (schema.go:312-329), `cols` in `schema.Fields` order -/
+def fieldsWithDefaultDB (cols : List CCol) : List String :=
+  ((cols.filter (fun c => c.dk == .db)) ++ (cols.filter (fun c => c.dk == .autoPk))).map (·.name)
+
+/-- create.go:52-60: RETURNING is requested for every `FieldsWithDefaultDBValue` column whenever the dialector supports it
+    and there is such a field — the shape of the primary key plays no role.  (`none` = no RETURNING clause.) -/
+def returningCols (support : Bool) (cols : List CCol) : Option (List String) :=
+  if support && !(fieldsWithDefaultDB cols).isEmpty then some (fieldsWithDefaultDB cols) else none
+
+/-- create.go:258-264: the base column list = every column whose field has no default or a literal default -/
+def baseCols (cols : List CCol) : List String := (cols.filter (fun c => !c.dk.isDB)).map (·.name)
+
+/-- values of one record, aligned with `cols` -/
+abbrev CRec := List Int
+
+/-- `FieldsWithDefaultDBValue` order of the DB-default columns for which `nonzero` holds (index = position in `cols`) -/
+def dbColsOrdered (cols : List CCol) (nonzero : Nat → Bool) : List String :=
+  let idx := (List.range cols.length).zip cols
+  ((idx.filter (fun p => p.2.dk == .db && nonzero p.1)) ++ (idx.filter (fun p => p.2.dk == .autoPk && nonzero p.1))).map (·.2.name)
+
+/-- INSERT column list of `Create(&record)` (create.go:316-345): base columns, then every DB-default column whose field
+    is non-zero in the record -/
+def insertColsOne (cols : List CCol) (r : CRec) : List String :=
+  baseCols cols ++ dbColsOrdered cols (fun i => (nth? r i).getD 0 != 0)
+
+/-- INSERT column list of `Create(&slice)` (create.go:266-314): base columns, then every DB-default column that is
+    non-zero in SOME element (the other elements send `DEFAULT` / `NULL` there) -/
+def insertColsSlice (cols : List CCol) (rs : List CRec) : List String :=
+  baseCols cols ++ dbColsOrdered cols (fun i => rs.any (fun r => (nth? r i).getD 0 != 0))
+
+/-- the value a record sends for one column (`none` = column omitted / `DEFAULT` / `NULL`: the database generates it) -/
+def sentVal (c : CCol) (v : Int) : Option Int :=
+  match c.dk with
+  | .none => some v
+  | .lit d => some (if v = 0 then d else v)
+  | .db | .autoPk => if v = 0 then none else some v
+
+/-- the row that stores a record: the sent value, else what the database generates for this row and column (`gen`) -/
+def rowOf (cols : List CCol) (gen : Nat → Int) (r : CRec) : List Int :=
+  let rec go : List CCol → List Int → Nat → List Int
+    | [], _, _ => []
+    | c :: cs, vs, i => ((sentVal c (vs.headD 0)).getD (gen i)) :: go cs vs.tail (i + 1)
+  go cols r 0
+
+/-- the in-memory record after Create: literal defaults are substituted by gorm (create.go:279-281 / 319-321); with a
+    RETURNING clause every `FieldsWithDefaultDBValue` column is scanned back from the record's own row (scan.go
+    `ScanUpdate`, row j → element j, section iv); without one the record keeps what it had (only the generated integer
+    key is back-filled from LastInsertId, section iv — not modelled here: `autoPk` stays as it was). -/
+def memAfter (support : Bool) (cols : List CCol) (gen : Nat → Int) (r : CRec) : List Int :=
+  let row := rowOf cols gen r
+  let ret := (returningCols support cols).getD []
+  let rec go : List CCol → List Int → List Int → List Int
+    | [], _, _ => []
+    | c :: cs, vs, ws =>
+      let v := vs.headD 0
+      (if ret.contains c.name then ws.headD 0
+       else match c.dk with
+         | .lit d => if v = 0 then d else v
+         | _ => v) :: go cs vs.tail ws.tail
+  go cols r row
+
 end Gorm.Scan
